@@ -26,7 +26,7 @@ def hConstruct : J → Option J
       let sparse ← sparse.toBool?
       let trim ← trim.toBool?
       match construct ratCfg natLt lex1 outs pmf sp b sparse trim with
-      | .ok d => pure (.arr [.str "ok", obsJ natJ d])
+      | .ok d => pure (.arr [.str "ok", obsJ natJ d, distJ natJ d])
       | .error e => pure (.arr [.str "err", errJ e])
   | _ => none
 
